@@ -31,6 +31,10 @@ UFS = [
     (1.1, 0.9, 1.2, 1.05),
     (2, 1, 1, 1),
     (1, 3, 1, 1),
+    # two tuples that agree in every product (ruf*suf, euf*duf, euf*suf) and differ in suf
+    # alone - the forces sol.pg are scaled by suf only
+    (1.2, 1.2, 1, 1),
+    (1, 1, 1.2, 1.2),
 ]
 
 _mods = None
